@@ -6,6 +6,7 @@ import (
 	"io"
 	"time"
 
+	"gitee.com/Trisia/gotlcp/dtlcp"
 	"gitee.com/Trisia/gotlcp/vs"
 )
 
@@ -34,6 +35,8 @@ type EchoOpts struct {
 	// Think: the server application takes this long (virtual time) before it answers; the client waits in Read
 	// without any deadline of its own
 	Think time.Duration
+	// SrvReadFrom (datagram stack): the server application reads with ReadFrom instead of Read
+	SrvReadFrom bool
 	// NoClose leaves the endpoints open at the end (caller closes).
 	NoClose bool
 }
@@ -112,7 +115,11 @@ func SpawnHandshakeEcho(w *World, p *Pair, o EchoOpts, out *HSOut, tag string) {
 			return
 		}
 		if o.Echo {
-			got, err := readFull(p.S, len(o.C2S))
+			var rd io.Reader = p.S
+			if o.SrvReadFrom && p.DS != nil {
+				rd = rfReader{p.DS}
+			}
+			got, err := readFull(rd, len(o.C2S))
 			out.GotC2S = got
 			if err != nil {
 				out.SEchoErr = "server read: " + err.Error()
@@ -205,3 +212,8 @@ func payload(src *vs.Src, n int, tag byte) []byte {
 	}
 	return b
 }
+
+// rfReader reads a datagram connection through ReadFrom.
+type rfReader struct{ c *dtlcp.Conn }
+
+func (r rfReader) Read(b []byte) (int, error) { n, _, err := r.c.ReadFrom(b); return n, err }
